@@ -1,8 +1,8 @@
 package checks
 
 import (
-	"math/big"
 	"fmt"
+	"math/big"
 
 	vmcommon "github.com/ElrondNetwork/elrond-vm-common"
 
